@@ -54,6 +54,7 @@ def shards(tier):
     out = [{"entry": e, "tier": tier} for e in ENTRY] + [{"seq": "pairs", "slice": [i, 4]} for i in range(4)] + \
         [{"seq": "triples", "slice": [i, 4]} for i in range(4)]
     out.append({"linked": True})
+    out.append({"nodep": True})
     if tier != "quick":
         out += [{"seq": "triples-full", "slice": [i, 16]} for i in range(16)]
     return out
@@ -123,7 +124,69 @@ def _run_linked(case, ctx):
         ctx.outcome("parsed")
 
 
+NODEP_CODE = r"""
+import json, os, sys, tempfile
+sys.modules["defusedxml"] = None            # `import defusedxml` raises ImportError in this interpreter
+sys.path.insert(0, sys.argv[1])
+from mc import bootstrap
+try:
+    bootstrap.activate(None)                # imports the package of the tree under test
+except ImportError as e:
+    print(json.dumps({"refused": "ImportError at import of the package"}))
+    sys.exit(0)
+from mc.checks import c19
+entry, fam = sys.argv[2], sys.argv[3]
+d = tempfile.mkdtemp(dir=sys.argv[4])
+canary = os.path.join(d, "canary-secret")
+for p in (canary, canary + ".dtd"):
+    open(p, "w").write('<!ENTITY g "leaked">' if p.endswith(".dtd") else "TOP-SECRET")
+doc, expect = c19._document(entry, fam, 3, "text", canary)
+try:
+    res = c19._parse(entry, doc, d)
+    print(json.dumps({"accepted": repr(res)[:300]}))
+except BaseException as e:
+    print(json.dumps({"refused": type(e).__name__}))
+"""
+
+
+def _run_nodep(case, ctx):
+    """The hardened parser cannot be imported in this interpreter (a stripped-down installation): the entry points then fail
+    (ImportError is a refusal) -- they do not fall back to a parser that expands entities."""
+    import json
+    import subprocess
+    import sys
+
+    from mc.bootstrap import repo_root
+
+    ctx.executions += 1
+    ctx.model(case)
+    ctx.sample(case)
+    ctx.nontrivial += 1
+    ctx.transitions += 1
+    ctx.states += 1
+    verif = os.path.dirname(os.path.dirname(os.path.dirname(os.path.abspath(__file__))))
+    with scratch_dir() as d:
+        env = dict(os.environ, VERIF_REPO=repo_root(), PYTHONDONTWRITEBYTECODE="1")
+        p = subprocess.run([sys.executable, "-c", NODEP_CODE, verif, case["entry"], case["family"], d], capture_output=True, text=True,
+                           timeout=120, env=env, cwd=d)
+    try:
+        res = json.loads(p.stdout.strip().splitlines()[-1])
+    except Exception:
+        raise AssertionError(f"harness: no answer from the interpreter without defusedxml: {p.stdout[-300:]} {p.stderr[-600:]}")
+    if "accepted" in res:
+        ctx.violation(case, {"subject": f"{case['entry']}.without-hardened-parser", "kind": "declaring-document-accepted",
+                             "family": case["family"]}, {"result": res["accepted"]})
+        return
+    ctx.outcome("refused")
+    ctx.extra["nodep." + res["refused"]] += 1
+
+
 def run_shard(shard, ctx):
+    if shard.get("nodep"):
+        for e in ENTRY:
+            for fam in ("internal", "laughs", "external-file"):
+                run_case({"nodep": True, "entry": e, "family": fam}, ctx)
+        return
     if shard.get("linked"):
         for fam in ("internal", "laughs", "external-file", "param-external"):
             for how in ("absolute", "relative"):
@@ -413,6 +476,8 @@ def _run_sequence(case, ctx):
 
 
 def run_case(case, ctx):
+    if case.get("nodep"):
+        return _run_nodep(case, ctx)
     if "sequence" in case:
         return _run_sequence(case, ctx)
     if case.get("linked"):
